@@ -567,6 +567,8 @@ def generate():
     report["files"].append("Gen/CPowKern.lean")
     report["kernels"].update(py2lean_kern.generate_rothkern(fns, gen_dir, write_if_changed))
     report["files"].append("Gen/RotHKern.lean")
+    report["kernels"].update(py2lean_kern.generate_eulerkern(fns, gen_dir, write_if_changed))
+    report["files"].append("Gen/EulerKern.lean")
     # ---- Dispatch.lean (for the line-protocol driver): every generated def by name ------------
     import re as _re
     cases = []
